@@ -9,7 +9,32 @@ import (
 )
 
 // C15 — one pointer step on a typed document agrees with the same step on its JSON encoding.
-// (Multi-token pointers follow by induction: each step lands on a value of a kind that has its own harness.)
+// Multi-token pointers follow by induction — each step lands on a value of a kind that has its own
+// harness — provided the Go value a step returns is one the next step can start from (a **Response encodes
+// like a *Response but cannot be walked): vC15Second takes that next step for a few common member names.
+
+var vC15SecondTokens = []string{"description", "type", "name", "$ref"}
+
+func vC15Second(kind string, got interface{}, want []byte) {
+	for _, t2 := range vC15SecondTokens {
+		w2, ok := vJSONMember(want, t2)
+		if !ok {
+			continue
+		}
+		g2, _, err := jsonpointer.GetForToken(got, t2)
+		vAssert(err == nil, kind+": a second pointer token that addresses a member of the JSON form fails on the value the first token returned")
+		if err != nil {
+			continue
+		}
+		if t2 == "$ref" {
+			continue // reached, its value is a Ref object whose own encoding is an object
+		}
+		b2, merr := json.Marshal(g2)
+		if merr == nil {
+			vAssert(vJSONEq(b2, w2), kind+": the second pointer step on the typed document differs from the lookup on its JSON form")
+		}
+	}
+}
 
 func vC15Check(kind string, v interface{}) {
 	o := vDocParams()
@@ -47,6 +72,7 @@ func vC15Check(kind string, v interface{}) {
 	vAssert(merr == nil, kind+": the value found on the typed document does not encode")
 	if merr == nil {
 		vAssert(vJSONEq(gb, want), kind+": pointer lookup on the typed document differs from the lookup on its JSON form")
+		vC15Second(kind, got, want)
 	}
 }
 
@@ -88,5 +114,6 @@ func vh_C15_Responses() {
 	gb, merr := json.Marshal(got)
 	if merr == nil {
 		vAssert(vJSONEq(gb, want), "responses: pointer lookup on the typed document differs from the lookup on its JSON form")
+		vC15Second("responses", got, want)
 	}
 }
